@@ -12,7 +12,7 @@
 From SV Require Import Base.Prelude Base.Bytes Model.Cql Model.Shard Model.Murmur Model.MurmurRef Model.PartKey
   Model.PartName Model.PartKeyTyped.
 From SV Require Import Proofs.Murmur_proofs Proofs.MurmurRef_proofs Proofs.PartKey_proofs Proofs.PartName_proofs
-  Proofs.TokenRing_proofs Proofs.PartKeyTyped_proofs.
+  Proofs.TokenRing_proofs Proofs.PartKeyTyped_proofs Proofs.C03_d4_proofs.
 Open Scope N_scope.
 
 (* ---- the streaming hashers ------------------------------------------------------------- *)
@@ -348,6 +348,80 @@ Theorem C03_prop_pk_model : forall p values,
   prop_pk_token_ok p values (token_for_partition_key p values) = true.
 Proof. exact prop_pk_token_model. Qed.
 
+(* ---- deepening round 4 ----------------------------------------------------------------- *)
+(* the driver's verdict predicates characterised exactly.  Inside the quantifier prop_token_ok
+   accepts an observed result of calculate_token IFF it is the specified outcome
+   ([spec_outcome], Proofs/C03_d4_proofs.v): no key columns and no token; or a serializable key
+   and exactly the partitioner's token of the serialized key; or a composite key with a component
+   over 65535 bytes and ValueTooLong n with 65535 < n.  So a `viol` of kinds K / R means exactly
+   "the implementation's output is not the specified outcome", and `ok` by predicate that it is.
+   Outside the quantifier the predicate claims nothing. *)
+Theorem C03_prop_token_iff : forall p ncols wire values obs,
+  key_ok ncols wire values ->
+  (prop_token_ok p ncols wire values obs = true <->
+   (wire = [] /\ obs = Ok None) \/
+   (wire <> [] /\ (length wire = 1%nat \/ Forall fits (spec_components wire values)) /\
+    obs = Ok (Some (spec_token p wire values))) \/
+   ((1 < length wire)%nat /\
+    Exists (fun c => 65535 < N.of_nat (length c)) (spec_components wire values) /\
+    exists n, obs = Err (ValueTooLong n) /\ 65535 < n)).
+Proof. exact prop_token_ok_iff. Qed.
+
+Theorem C03_prop_token_outside : forall p ncols wire values obs,
+  ~ key_ok ncols wire values -> prop_token_ok p ncols wire values obs = true.
+Proof. exact prop_token_ok_outside. Qed.
+
+(* the same for calculate_token_for_partition_key (kind T) on values that are all bound *)
+Theorem C03_prop_pk_token_iff : forall p values obs,
+  forallb is_value values = true ->
+  (prop_pk_token_ok p values obs = true <->
+   (((length (map bound_bytes values) <= 1)%nat \/ Forall fits (map bound_bytes values)) /\
+    obs = Ok (token_spec p (spec_serialized_key (map bound_bytes values)))) \/
+   ((1 < length (map bound_bytes values))%nat /\
+    Exists (fun c => 65535 < N.of_nat (length c)) (map bound_bytes values) /\
+    exists n, obs = Err (ValueTooLong n) /\ 65535 < n)).
+Proof. exact prop_pk_token_ok_iff. Qed.
+
+Theorem C03_prop_pk_token_outside : forall p values obs,
+  forallb is_value values = false -> prop_pk_token_ok p values obs = true.
+Proof. exact prop_pk_token_ok_outside. Qed.
+
+(* the model satisfies the driver's predicates for EVERY input (the < 2^63 premise of
+   C03_prop_model / C03_prop_pk_model discharged) *)
+Theorem C03_prop_model_all : forall chk p ncols wire values,
+  prop_token_ok p ncols wire values (ps_calculate_token chk p ncols wire values) = true.
+Proof. exact prop_token_model_all. Qed.
+
+Theorem C03_prop_pk_model_all : forall p values,
+  prop_pk_token_ok p values (token_for_partition_key p values) = true.
+Proof. exact prop_pk_token_model_all. Qed.
+
+(* the other < 2^63 premises discharged: hash_one, chunk independence, the preserialized key,
+   the shard of a hashed key *)
+Theorem C03_hash_one_all : forall p (data : bytes), hash_one p data = token_spec p data.
+Proof. exact hash_one_spec_all. Qed.
+
+Theorem C03_chunk_independent_all : forall p (chunks1 chunks2 : list bytes),
+  concat chunks1 = concat chunks2 -> feed p chunks1 = feed p chunks2.
+Proof. exact feed_chunk_independent_all. Qed.
+
+Theorem C03_token_preserialized_all : forall p (comps : list bytes),
+  (length comps = 1%nat \/ Forall fits comps) ->
+  token_for_partition_key p (map RValue comps) = Ok (token_spec p (spec_serialized_key comps)).
+Proof. exact token_for_partition_key_spec_all. Qed.
+
+Theorem C03_token_shard_all : forall p (chunks : list bytes) n msb,
+  0 < n -> msb <= 63 ->
+  shard_of n msb (feed p chunks) = spec_shard_of n msb (token_spec p (concat chunks)) /\
+  shard_of n msb (feed p chunks) < n.
+Proof. exact feed_shard_all. Qed.
+
+(* str::ends_with (the extracted function behind from_str and the driver's choice of the expected
+   partitioner for P / E) is "s = pre ++ suffix" *)
+Theorem C03_ends_with_iff : forall s suffix,
+  ends_with s suffix = true <-> exists pre, s = String.append pre suffix.
+Proof. exact ends_with_iff. Qed.
+
 (* ---- cross-checks and non-vacuity ------------------------------------------------------ *)
 
 (* the literal vectors of partitioner.rs tests: "test", "xd", "primary_key", "kremówki" *)
@@ -583,6 +657,24 @@ Example C03_ex_too_long :
   = Err (ValueTooLong 65536).
 Proof. vm_compute. reflexivity. Qed.
 
+(* round 4: the characterisations on the [4,0,3] key - the specified outcome is accepted, every
+   other shape refused - on an all-bound T input, and the suffix witness of the CDC class *)
+Example C03_ex_round4 :
+  prop_token_ok PMurmur3 5 ex_wire ex_values (Ok (Some (spec_token PMurmur3 ex_wire ex_values))) = true /\
+  prop_token_ok PMurmur3 5 ex_wire ex_values (Ok None) = false /\
+  ~ key_ok 5 [4; 0; 4] ex_values /\
+  forallb is_value [RValue [1]; RValue [2]] = true /\
+  forallb is_value [RValue [1]; RNull] = false /\
+  (exists pre, cdc_class = String.append pre cdc_suffix) /\
+  ~ (exists pre, random_class = String.append pre cdc_suffix) /\
+  hash_one PCdc v_primary_key = token_spec PCdc v_primary_key.
+Proof.
+  repeat split; try (vm_compute; reflexivity).
+  - intros H. apply key_okb_complete in H. vm_compute in H. discriminate.
+  - apply C03_ends_with_iff. vm_compute. reflexivity.
+  - intros H. apply C03_ends_with_iff in H. vm_compute in H. discriminate.
+Qed.
+
 Print Assumptions C03_chunking.
 Print Assumptions C03_reference.
 Print Assumptions C03_reference_token.
@@ -630,3 +722,14 @@ Print Assumptions C03_token_shard.
 Print Assumptions C03_key_okb_iff.
 Print Assumptions C03_prop_model.
 Print Assumptions C03_prop_pk_model.
+Print Assumptions C03_prop_token_iff.
+Print Assumptions C03_prop_token_outside.
+Print Assumptions C03_prop_pk_token_iff.
+Print Assumptions C03_prop_pk_token_outside.
+Print Assumptions C03_prop_model_all.
+Print Assumptions C03_prop_pk_model_all.
+Print Assumptions C03_hash_one_all.
+Print Assumptions C03_chunk_independent_all.
+Print Assumptions C03_token_preserialized_all.
+Print Assumptions C03_token_shard_all.
+Print Assumptions C03_ends_with_iff.
